@@ -50,15 +50,53 @@ def _worker_init():
   _quiet()
 
 
-def pytype_pyi(src, skip_repeat_calls=True, empty_to_any=False):
-  """(pyi text, None) or (None, reason).  The two switches are root-cause probes used to fingerprint a violation:
+def pytype_pyi(src, skip_repeat_calls=True, empty_to_any=False, fix_simplify=False, fix_closure=False):
+  """(pyi text, None) or (None, reason).  The switches are root-cause probes used to fingerprint a violation:
   skip_repeat_calls=False turns pytype's call cache off; empty_to_any=True replaces a call result that is the
-  empty value (`nothing`, e.g. sum([]), [] + x) by Any."""
+  empty value (`nothing`, e.g. sum([]), [] + x) by Any; fix_simplify=True makes abstract_utils.simplify_variable
+  give a merged binding one source set per merged binding; fix_closure=True makes LOAD_DEREF push a fresh copy of
+  the cell's bindings instead of the shared (and possibly narrowed-in-place) cell variable."""
   from pytype import config, io  # pylint: disable=import-outside-toplevel
   from pytype import vm_utils  # pylint: disable=import-outside-toplevel
   from pytype.abstract import function  # pylint: disable=import-outside-toplevel
+  from pytype.abstract import abstract_utils  # pylint: disable=import-outside-toplevel
   orig = function.call_function
   orig_binop = vm_utils.call_binary_operator
+  orig_simplify = abstract_utils.simplify_variable
+  if fix_simplify:
+    import collections as _c  # pylint: disable=import-outside-toplevel
+
+    def fixed_simplify(var, node, ctx):
+      # as abstract_utils.simplify_variable, but the merged binding gets ONE SOURCE SET PER merged binding
+      # (a disjunction) instead of one source set holding all of them (a conjunction)
+      if not var:
+        return var
+      by_hash = _c.defaultdict(list)
+      for b in var.bindings:
+        by_hash[b.data.get_fullhash()].append(b)
+      if len(by_hash) == len(var.bindings):
+        return var
+      new_var = ctx.program.NewVariable()
+      for bindings in by_hash.values():
+        for b in bindings:
+          new_var.AddBinding(bindings[0].data, [b], node)
+      return new_var
+    abstract_utils.simplify_variable = fixed_simplify
+  orig_cell = vm_utils.load_closure_cell
+  if fix_closure:
+    def fixed_cell(state, op, check_bindings, ctx):
+      # LOAD_DEREF pushes a fresh copy of the visible cell bindings made at the current node; the shared cell
+      # itself is neither pushed nor replaced by its narrowed version (LOAD_CLOSURE keeps the original behaviour)
+      if not check_bindings:
+        return orig_cell(state, op, check_bindings, ctx)
+      cell = ctx.vm.frame.cells[ctx.vm.frame.f_code.get_cell_index(op.argval)]
+      if not cell.bindings:
+        return orig_cell(state, op, check_bindings, ctx)
+      new = ctx.program.NewVariable()
+      for b in cell.bindings:
+        new.PasteBinding(b, state.node)
+      return state.push(new)
+    vm_utils.load_closure_cell = fixed_cell
   if empty_to_any:
     def is_empty(var):
       return not var.bindings or any(type(d).__name__ == "Empty" for d in var.data)
@@ -87,6 +125,8 @@ def pytype_pyi(src, skip_repeat_calls=True, empty_to_any=False):
   finally:
     function.call_function = orig
     vm_utils.call_binary_operator = orig_binop
+    abstract_utils.simplify_variable = orig_simplify
+    vm_utils.load_closure_cell = orig_cell
 
 
 def _pyi_task(src):
@@ -321,11 +361,105 @@ def dedupe_dict_keys(src):
   return ast.unparse(ast.fix_missing_locations(t2)) + "\n"
 
 
+def method_return_attr_store(src, v0):
+  """True if the violated check is the printed return type of a method C.m that reads `self.A` while `A` is also
+  stored from outside the class that defines m (module-level `o.A = v`, or a method of another class)."""
+  if v0["kind"] != "return" or "." not in v0["where"]:
+    return False
+  cname, mname = v0["where"][:-2].split(".", 1)
+  tree = ast.parse(src)
+  classes = {n.name: n for n in tree.body if isinstance(n, ast.ClassDef)}
+
+  def mro(c, seen):
+    if c in seen or c not in classes:
+      return seen
+    seen.append(c)
+    for bnode in classes[c].bases:
+      if isinstance(bnode, ast.Name):
+        mro(bnode.id, seen)
+    return seen
+  definer = None
+  for c in mro(cname, []):
+    if any(isinstance(f, ast.FunctionDef) and f.name == mname for f in classes[c].body):
+      definer = c
+      break
+  if definer is None:
+    return False
+  meth = [f for f in classes[definer].body if isinstance(f, ast.FunctionDef) and f.name == mname][-1]
+  read = {n.attr for n in ast.walk(meth) if isinstance(n, ast.Attribute) and isinstance(n.ctx, ast.Load)
+          and isinstance(n.value, ast.Name) and n.value.id == "self"}
+  inside = {id(n) for n in ast.walk(classes[definer])}
+  for n in ast.walk(tree):
+    if isinstance(n, ast.Attribute) and isinstance(n.ctx, ast.Store) and n.attr in read and id(n) not in inside:
+      return True
+  for c, node in classes.items():
+    if c != definer:
+      for st in node.body:
+        if isinstance(st, ast.Assign) and any(isinstance(t, ast.Name) and t.id in read for t in st.targets):
+          return True
+  return False
+
+
+def solver_anomaly(src, name):
+  """Probe for a solver anomaly on the module-level name `name`: a binding of it that is NOT visible at the exit
+  point although it is visible at a CFG node n and n has a successor m, on the way to the exit, that carries no
+  condition and no assignment of that variable, where it is not visible any more.  (Visibility can only be lost
+  at a node that re-assigns the variable or carries a condition.)  Returns a description or None."""
+  from pytype import config, io, tracer_vm  # pylint: disable=import-outside-toplevel
+  found = []
+  orig = tracer_vm.CallTracer.pytd_for_types
+
+  def hook(self, defs):
+    try:
+      var = defs.get(name)
+      ex = self.ctx.exitpoint
+      if var is not None:
+        assigned = {o.where.id for b in var.bindings for o in b.origins}
+        nodes = list(self.ctx.program.cfg_nodes)
+        for b in var.bindings:
+          if b.IsVisible(ex):
+            continue
+          for n in nodes:
+            if not b.IsVisible(n):
+              continue
+            for m in n.outgoing:
+              if m.condition is None and m.id not in assigned and not b.IsVisible(m) \
+                  and self.ctx.program.is_reachable(src=m, dst=ex):
+                found.append("%s visible at <%d %s> but not at its successor <%d %s>" %
+                             (type(b.data).__name__, n.id, n.name, m.id, m.name))
+                break
+            if found:
+              break
+          if found:
+            break
+    except Exception:  # pylint: disable=broad-except
+      pass
+    return orig(self, defs)
+  tracer_vm.CallTracer.pytd_for_types = hook
+  try:
+    io.generate_pyi(src, config.Options.create(python_version=(3, 12)))
+  except Exception:  # pylint: disable=broad-except
+    pass
+  finally:
+    tracer_vm.CallTracer.pytd_for_types = orig
+  return found[0] if found else None
+
+
+FP_CACHE = "call-cache:cached-return-invisible-in-other-branch"
+FP_EMPTY = "empty-value:call-result-nothing-treated-as-no-value"
+FP_SIMPLIFY = "simplify-variable:merged-bindings-joined-by-conjunction"
+FP_CLOSURE = "closure-cell:load-deref-shares-or-narrows-the-cell"
+FP_METHOD = "method-return:attribute-redefined-outside-defining-class"
+FP_DICTDUP = "dict-display:duplicate-constant-key"
+FP_SOLVER = "solver:binding-visible-at-a-node-but-not-at-its-unconditioned-successor"
+NO_TIME_CAP = 24 * 3600.0
+
+
 def classify(src, calls, v0, known):
-  """A fingerprint for a violation: root-cause probes on the ORIGINAL program first (semantic, stable), the
-  constructs of the minimised program otherwise.  Returns (fingerprint, minimised source or None).
-  Everything is bounded by numbers of pytype runs, not by wall-clock time, so the result does not depend on the
-  machine load."""
+  """A fingerprint for a violation: root-cause probes on the ORIGINAL program first (mechanism-based, stable),
+  else the violated check + the sorted set of constructs of the minimised program.  Returns (fingerprint,
+  minimised source or None).  All budgets are numbers of pytype runs, never wall-clock time, so the same program
+  always gets the same fingerprint whatever the machine load."""
 
   def still(s, **kw):
     g, _ = E2E.run_cpython(s)
@@ -343,78 +477,40 @@ def classify(src, calls, v0, known):
   if not still(src):
     return "not-reproducible", None
   fp = None
-  # probe 1: the call cache (InterpreterFunction._call_cache) off => every call is re-analysed
+  # each probe switches ONE pytype mechanism off / repairs it; the violation disappearing names the mechanism
   if not still(src, skip_repeat_calls=False):
-    fp = "call-cache:cached-return-invisible-in-other-branch"
-  # probe 2: call results that are the empty value `nothing` (sum([]), ...) replaced by Any
+    fp = FP_CACHE          # InterpreterFunction._call_cache
   elif not still(src, empty_to_any=True):
-    fp = "empty-value:call-result-nothing-treated-as-no-value"
+    fp = FP_EMPTY          # a call / operator result that is the Empty value
+  elif not still(src, fix_simplify=True):
+    fp = FP_SIMPLIFY       # abstract_utils.simplify_variable: AddBinding(data, [b1, b2], node)
+  elif not still(src, fix_closure=True):
+    fp = FP_CLOSURE        # vm_utils.load_closure_cell
+  elif method_return_attr_store(src, v0):
+    fp = FP_METHOD
+  elif v0["kind"] == "name" and solver_anomaly(src, v0["where"]):
+    fp = FP_SOLVER
   else:
-    # probe 3: equal constant keys in one dict display
     d = dedupe_dict_keys(src)
     if d is not None and E2E.run_cpython(d)[0] is not None and not still(d):
-      fp = "dict-display:duplicate-constant-key"
+      fp = FP_DICTDUP
   if fp is not None and (fp in known or fp in _classified):
     return fp, None                      # already reported / listed: no need to minimise again
   if fp is None and _classified.get("(unclassified, minimised)", 0) >= MAX_UNCLASSIFIED:
     return "(unclassified, not minimised: budget of %d minimisations used)" % MAX_UNCLASSIFIED, None
-  # budgets are numbers of pytype runs (deterministic); the time caps only guard against a stuck machine
-  m = E2E.minimise(src, still, E2E.Budget(150, 3600.0))
-  m = E2E.simplify_exprs(m, still, E2E.Budget(80, 1800.0))
-  m = E2E.minimise(m, still, E2E.Budget(30, 900.0))
+  # minimise to a fixpoint (bounded), so that re-minimising the minimised program (e.g. from the corpus) gives the
+  # same program and hence the same fingerprint
+  m = src
+  for _ in range(6 if fp is None else 1):
+    m0 = m
+    m = E2E.minimise(m, still, E2E.Budget(200, NO_TIME_CAP))
+    m = E2E.simplify_exprs(m, still, E2E.Budget(120, NO_TIME_CAP))
+    if m == m0:
+      break
   if fp is None:
     _classified["(unclassified, minimised)"] = _classified.get("(unclassified, minimised)", 0) + 1
-    feats = E2E.features(m)
-    for f in feats:
-      if f.startswith("builtin:") or f.startswith("builtin-method:"):
-        nm = f.split(":", 1)[1]
-        if _cures_builtin(m, nm, still):
-          return "builtin-result:" + nm, m
-    # fallback: the violated check + the distinctive constructs left in the minimised program
-    core = [f for f in feats if f in CORE_FEATURES] or feats      # never an empty (catch-all) fingerprint
-    fp = "unclassified:" + v0["kind"] + ":" + "+".join(core)
+    fp = "unclassified:" + v0["kind"] + ":" + "+".join(E2E.features(m))
   return fp, m
-
-
-CORE_FEATURES = ("attr-store", "boolop", "call-repeated", "class-derived", "class-multi", "closure",
-                 "comprehension", "lambda", "method-call", "subscript", "try")
-
-
-def _cures_builtin(src, name, still):
-  """replace every call of builtin `name` by the repr of its run-time value; True if the violation disappears"""
-  tree = ast.parse(src)
-  g, _ = E2E.run_cpython(src)
-  if g is None:
-    return False
-
-  class R(ast.NodeTransformer):
-    changed = False
-
-    def visit_Call(self, node):
-      self.generic_visit(node)
-      f = node.func
-      nm = f.id if isinstance(f, ast.Name) else f.attr if isinstance(f, ast.Attribute) else None
-      if nm != name:
-        return node
-      try:
-        val = eval(compile(ast.Expression(node), "<c>", "eval"), dict(g))  # pylint: disable=eval-used
-        lit = ast.parse(repr(val), mode="eval").body
-        ast.literal_eval(lit)
-      except Exception:  # pylint: disable=broad-except
-        return node
-      self.changed = True
-      return lit
-
-  rr = R()
-  try:
-    t2 = rr.visit(tree)
-    if not rr.changed:
-      return False
-    cand = ast.unparse(ast.fix_missing_locations(t2)) + "\n"
-  except Exception:  # pylint: disable=broad-except
-    return False
-  g2, _ = E2E.run_cpython(cand)
-  return g2 is not None and not still(cand)
 
 
 _classified = {}
